@@ -59,8 +59,12 @@ def dependent(a, b) -> bool:
     steps (begin, exit, start, join are ordered by enabledness, not by dependence). Line-granularity points are dependent with everything."""
     ka, ia = a
     kb, ib = b
-    if ka == "line" or kb == "line":
-        return True
+    if ka == "get~timed":
+        ka = "get"   # the timer of a timed get is disabled exactly by a put on the same queue: same dependences as the get itself
+    if kb == "get~timed":
+        kb = "get"
+    if ka == "line" or kb == "line" or ka.endswith("~timed") or kb.endswith("~timed"):
+        return True   # other timed waits (join, event, lock) are conservatively dependent with everything
     qops = ("put", "get", "get_nowait", "empty?")
     if ka in qops and kb in qops:
         return ia == ib and not (ka == "empty?" and kb == "empty?")
@@ -73,7 +77,7 @@ def dependent(a, b) -> bool:
 
 
 class _TState:
-    __slots__ = ("tid", "name", "sem", "finished", "wait", "wait_desc", "real", "exc", "started", "pending")
+    __slots__ = ("tid", "name", "sem", "finished", "wait", "wait_desc", "real", "exc", "started", "pending", "timed")
 
     def __init__(self, tid, name):
         self.tid, self.name = tid, name
@@ -84,6 +88,7 @@ class _TState:
         self.real = None
         self.exc = None
         self.started = False
+        self.timed = False               # the current wait has a timeout: it may also end with its condition still false
         self.pending = ("begin", None)   # label of the transition this thread performs when it is scheduled next
 
 
@@ -91,6 +96,10 @@ class Controller:
     """One Controller per execution."""
 
     HANDOFF_TIMEOUT = 20.0
+    # A wait with a timeout (Queue.get(timeout=), Thread.join(timeout), Event.wait(timeout)) may end with its condition still
+    # false: "the timer lands first" is an environment answer the explorer decides. It is a DEVIATION: taken by default only
+    # when nothing else can run, otherwise explored as an alternative at most MAX_TIMEOUTS times per execution.
+    MAX_TIMEOUTS = 1
 
     def __init__(self, prefix=(), horizon=4000, snapshot=None, sleep_at=None):
         # sleep_at = (index of the branching choice point, set of thread ids put to sleep there): sleep-set partial-order reduction
@@ -110,6 +119,7 @@ class Controller:
         self.current: _TState | None = None
         self.lock = _real_threading.Lock()
         self.trace_log: list = []
+        self.timeouts_fired = 0
         main = _TState(0, "main")
         main.real = _real_threading.current_thread()
         main.started = True
@@ -122,16 +132,24 @@ class Controller:
         return self.by_ident.get(_real_threading.get_ident())
 
     def _enabled(self) -> list[_TState]:
-        out = []
+        out, timers = [], []
         for t in self.threads:
             if t.finished or not t.started:
                 continue
             if t.wait is not None and not t.wait():
+                if t.timed:
+                    timers.append(t)
                 continue
             out.append(t)
+        if timers and (not out or self.timeouts_fired < self.MAX_TIMEOUTS):
+            out += timers   # scheduling one of these = its timer lands before the condition holds
         return out
 
-    def point(self, kind: str, info=None, wait=None, wait_desc=None):
+    @staticmethod
+    def _timer_only(t) -> bool:
+        return bool(t.timed and t.wait is not None and not t.wait())
+
+    def point(self, kind: str, info=None, wait=None, wait_desc=None, timed=False):
         """Called by the running controlled thread. May block until this thread is scheduled again."""
         me = self.me()
         if me is None:
@@ -148,9 +166,11 @@ class Controller:
             done = me.pending
             self.sleep = {t for t in self.sleep if not dependent(self.threads[t].pending, done)}
         me.pending = (kind, info)
-        me.wait, me.wait_desc = wait, wait_desc
+        me.wait, me.wait_desc, me.timed = wait, wait_desc, bool(timed and wait is not None)
         self._dispatch(me, kind, info)
-        me.wait, me.wait_desc = None, None
+        if me.timed and wait is not None and not wait():
+            self.timeouts_fired += 1
+        me.wait, me.wait_desc, me.timed = None, None, False
         if self.aborted:
             raise Abort(self.aborted)
 
@@ -162,7 +182,8 @@ class Controller:
             self._abort("deadlock")
             return
         # canonical order: running thread first if still enabled, then ascending ids
-        enabled.sort(key=lambda t: (0 if t is me else 1, t.tid))
+        # (threads that could only go on because their timer lands come last: a timeout is never the default answer)
+        enabled.sort(key=lambda t: (1 if self._timer_only(t) else 0, 0 if t is me else 1, t.tid))
         running_enabled = enabled[0] is me
         if len(enabled) > 1:
             idx = len(self.choices)
@@ -314,7 +335,7 @@ class VQueue:
 
                     raise queue.Empty
                 return self.items.popleft()
-            c.point("get", self.qid, wait=lambda: len(self.items) > 0, wait_desc=f"get(q{self.qid})")
+            c.point("get" if timeout is None else "get~timed", self.qid, wait=lambda: len(self.items) > 0, wait_desc=f"get(q{self.qid})", timed=timeout is not None)
         if not self.items:
             import queue
 
@@ -367,11 +388,11 @@ class VThread:
         self.ts.started = True
         c.point("start", self.ts.tid)
 
-    def join(self, timeout=None):  # noqa: ARG002
+    def join(self, timeout=None):
         c = self.ctl
         ts = self.ts
         if c is not None and c.me() is not None:
-            c.point("join", ts.tid, wait=lambda: ts.finished, wait_desc=f"join({ts.name})")
+            c.point("join" if timeout is None else "join~timed", ts.tid, wait=lambda: ts.finished, wait_desc=f"join({ts.name})", timed=timeout is not None)
 
     def is_alive(self):
         return self.ts is not None and not self.ts.finished
@@ -428,10 +449,10 @@ class VEvent:
             c.point("event.clear", None)
         self._flag = False
 
-    def wait(self, timeout=None):  # noqa: ARG002
+    def wait(self, timeout=None):
         c = _ctl
         if c is not None and c.me() is not None:
-            c.point("event.wait", None, wait=lambda: self._flag, wait_desc="event.wait")
+            c.point("event.wait" if timeout is None else "event.wait~timed", None, wait=lambda: self._flag, wait_desc="event.wait", timed=timeout is not None)
         return self._flag
 
 
@@ -442,7 +463,7 @@ class VLock:
         self._owner = None
         self._depth = 0
 
-    def acquire(self, blocking=True, timeout=-1):  # noqa: ARG002
+    def acquire(self, blocking=True, timeout=-1):
         c = _ctl
         me = c.me() if c is not None else None
         if me is not None:
@@ -451,7 +472,10 @@ class VLock:
                 if self._owner not in (None, me):
                     return False
             else:
-                c.point("lock.acquire", None, wait=lambda: self._owner in (None, me), wait_desc="lock.acquire")
+                timed = timeout is not None and timeout >= 0
+                c.point("lock.acquire" + ("~timed" if timed else ""), None, wait=lambda: self._owner in (None, me), wait_desc="lock.acquire", timed=timed)
+                if self._owner not in (None, me):
+                    return False
         self._owner = me if me is not None else "uncontrolled"
         self._depth += 1
         return True
